@@ -71,7 +71,11 @@ func buildAccount(ct c13Content, r *Rng) *jwt.AccountClaims {
 	for _, t := range ct.Tiers {
 		t := t
 		steps = append(steps, func() {
-			a.Limits.JetStreamTieredLimits[t] = jwt.JetStreamLimits{MemoryStorage: int64(len(t)), Streams: 3}
+			sum := 0
+			for _, b := range []byte(t) {
+				sum = sum*31 + int(b)
+			}
+			a.Limits.JetStreamTieredLimits[t] = jwt.JetStreamLimits{MemoryStorage: int64(sum), Streams: 3}
 		})
 	}
 	for _, i := range perm(r, len(steps)) {
@@ -110,7 +114,7 @@ func buildGeneric(ct c13Content, r *Rng) *jwt.GenericClaims {
 }
 
 func runC13(c *Ctx) {
-	c.Res.Rule = "equal contents built through random insertion orders of signing keys (plain, scoped, and scoped entries whose Key field was re-keyed to collide with another entry), account and export revocations, mappings, limit tiers and generic data (incl. a nested object); every tenth content carries a revocation list of 150-300 entries with a covering wildcard; every third object first encoded with different standard fields and then edited back (equal content through a different history); each object encoded repeatedly in one process (the runtime re-randomises map iteration per loop) under GOMAXPROCS 1 and 16; all tokens whose issue time agrees must be byte-identical, across objects and across repetitions. Each object also goes through the Lean model's Encode. non-trivial = distinct contents."
+	c.Res.Rule = "equal contents built through random insertion orders of signing keys (plain, scoped, and scoped entries whose Key field was re-keyed to collide with another entry), account and export revocations, mappings, limit tiers and generic data (incl. a nested object; tier and mapping names that differ only by case or padding, with different values); every tenth content carries a revocation list of 150-300 entries with a covering wildcard; every third object first encoded with different standard fields and then edited back (equal content through a different history); each object encoded repeatedly in one process (the runtime re-randomises map iteration per loop) under GOMAXPROCS 1 and 16; all tokens whose issue time agrees must be byte-identical, across objects and across repetitions. Each object also goes through the Lean model's Encode. non-trivial = distinct contents."
 	old := runtime.GOMAXPROCS(0)
 	defer runtime.GOMAXPROCS(old)
 	nContents := c.N(60, 3000)
@@ -155,6 +159,17 @@ func runC13(c *Ctx) {
 		for k := 0; k < c.R.Intn(5); k++ {
 			ct.Maps = append(ct.Maps, fmt.Sprintf("m%d.sub", k))
 			ct.Tiers = append(ct.Tiers, fmt.Sprintf("R%d", k))
+			// names that differ only by case or padding are different keys with different values
+			if c.R.Chance(35) {
+				ct.Tiers = append(ct.Tiers, fmt.Sprintf("r%d", k))
+				c.Count("near-duplicate-keys")
+			}
+			if c.R.Chance(20) {
+				ct.Tiers = append(ct.Tiers, fmt.Sprintf(" R%d ", k))
+			}
+			if c.R.Chance(20) {
+				ct.Maps = append(ct.Maps, fmt.Sprintf("M%d.sub", k))
+			}
 		}
 		for k := 0; k < c.R.Intn(7); k++ {
 			ct.Data[fmt.Sprintf("k%d<&>", k)] = float64(c.R.Intn(100))
